@@ -51,11 +51,12 @@ func (in Input) effScheme() string {
 }
 
 type zoneGen struct {
-	r     *rand.Rand
-	z     simdoh.Zone
-	pool  []string
-	nextA int
-	ttls  []uint32
+	r        *rand.Rand
+	z        simdoh.Zone
+	pool     []string
+	nextA    int
+	ttls     []uint32
+	noOtherQ bool // see genUniverse
 }
 
 var labelAlphabet = []string{"a", "b", "c", "d", "e", "w"}
@@ -355,12 +356,18 @@ func (g *zoneGen) faults(names []string) {
 		if core.Chance(g.r, 1, 2) {
 			f.Type = uint16(core.Pick(g.r, []int{simdoh.TypeA, simdoh.TypeAAAA, simdoh.TypeHTTPS}))
 		}
-		switch g.r.IntN(9) {
+		k := g.r.IntN(9)
+		if k == 8 && g.noOtherQ {
+			k = 3
+		}
+		switch k {
 		case 8:
 			// the upstream answers another question than the one asked
 			f.Kind = simdoh.FaultOtherQ
 			f.Text = core.Pick(g.r, names)
-			if f.Text == f.Name || len(simdoh.NameProblems(f.Text)) > 0 {
+			if strings.EqualFold(strings.TrimSuffix(f.Text, "."), strings.TrimSuffix(f.Name, ".")) || len(simdoh.NameProblems(f.Text)) > 0 {
+				// (the same name in another spelling would be an answer to the
+				// question asked: names compare without regard to case)
 				f.Text = "a.evil.test"
 			}
 		case 0, 1, 2:
@@ -477,6 +484,15 @@ func genUniverse(r *rand.Rand, nInputs int) (simdoh.Zone, []Input) {
 	for i := range g.z.RRs {
 		if t := g.z.RRs[i].Target; t != "" && core.Chance(r, 1, 3) {
 			named = append(named, t)
+		}
+	}
+	for _, in := range inputs {
+		if in.Host != strings.ToLower(in.Host) {
+			// A foreign answer may hold records of the queried name in the zone's
+			// (lower-case) spelling; whether a resolver that asked in another
+			// spelling picks them up is not something the statement settles
+			// (it says which records may be used, not that all must be).
+			g.noOtherQ = true
 		}
 	}
 	if len(named) > 0 && core.Chance(r, 1, 4) {
